@@ -40,7 +40,30 @@ func main() {
 	dump := flag.Bool("dump", false, "print every obligation")
 	onlyRule := flag.String("rule", "", "run only this rule (debugging)")
 	noSelf := flag.Bool("noselftest", false, "skip the mutant self-test")
+	allRulesFlag := flag.Bool("allrules", false, "run every rule once and print the non-discharged obligations (development aid)")
 	flag.Parse()
+	if *allRulesFlag {
+		res, err := analyse(*repo, allRules, LoadOpts{})
+		if err != nil {
+			fmt.Println("LOAD-ERROR", err)
+			os.Exit(2)
+		}
+		known, _ := loadKnown(*verif)
+		bad := 0
+		for _, o := range res.Obs {
+			if o.Status == Discharged || matchKnown(known, o) != nil {
+				continue
+			}
+			bad++
+			r := ruleByID(o.Rule)
+			fmt.Printf("%s %s [%s] %s %s :: %s\n", o.Status, o.Rule, strings.Join(r.Props, ","), o.Pos, o.Key, o.Detail)
+		}
+		fmt.Printf("allrules: %d obligations, %d not discharged\n", len(res.Obs), bad)
+		if bad > 0 {
+			os.Exit(1)
+		}
+		return
+	}
 
 	if *list {
 		for _, r := range allRules {
